@@ -1,0 +1,27 @@
+//go:build verif
+
+package reflection
+
+import "google.golang.org/protobuf/reflect/protoreflect"
+
+// Exports of unexported pure functions for the external verification harness (tag "verif" only).
+
+// VerifHashServiceNames runs hashServiceNames on a copy of names.
+func VerifHashServiceNames(names []string) string {
+	full := make([]protoreflect.FullName, len(names))
+	for i, n := range names {
+		full[i] = protoreflect.FullName(n)
+	}
+
+	return hashServiceNames(full)
+}
+
+// VerifHashNamedProtoBundles runs hashNamedProtoBundles on bundles built from the parallel slices names/protos.
+func VerifHashNamedProtoBundles(names []string, protos [][]byte) string {
+	bundles := make([]namedProtoBundle, len(names))
+	for i := range names {
+		bundles[i] = namedProtoBundle{name: names[i], proto: protos[i]}
+	}
+
+	return hashNamedProtoBundles(bundles)
+}
